@@ -606,6 +606,22 @@ func init() {
 					}
 				}
 			}
+			// the kill ring outlives the line: kill, Enter, yank in the next Readline call
+			for _, cmd := range killEmacs {
+				if cmd == "kill-region" {
+					continue // without an active region it removes nothing (as in ZZ_C16_KillYank)
+				}
+				j := mkJob(".ZZ_C16_AcrossCalls", shellSetup, "mode", "emacs", "cmd", cmd, "n", "2")
+				j.Stubs = paintStubs
+				j.Reach = []string{"yanked"}
+				jobs = append(jobs, j)
+			}
+			for _, cmd := range killVi {
+				j := mkJob(".ZZ_C16_AcrossCalls", shellSetup, "mode", "vi-command", "cmd", cmd, "n", "2")
+				j.Stubs = paintStubs
+				j.Reach = []string{"yanked"}
+				jobs = append(jobs, j)
+			}
 			// "after several kills, yank inserts the most recent one": two kills, then yank
 			two := func(mode, c1, c2 string, n int) {
 				j := mkJob(".ZZ_C16_TwoKills", shellSetup, "mode", mode, "cmd", c1, "cmd2", c2, "n", itoa(n))
@@ -631,6 +647,7 @@ func init() {
 			return jobs
 		},
 		Assumptions: append([]string{
+			"ZZ_C16_AcrossCalls: the kill runs in one Readline call (n = 2 printable ASCII characters), Enter leaves it, and yank / vi-put-before on the empty line of the next call on the same shell must insert exactly the killed text",
 			"ZZ_C16_TwoKills: two kill commands, the cursor (and the mark for kill-region) set to an arbitrary position before each, then yank / vi-put-before: the ring top after the second kill is what it removed and the yank inserts exactly that at the cursor; paths where either kill removes nothing are not asserted",
 			"pre-state: buffer of n symbolic runes (ASCII incl. controls, blanks, quotes, newline; or Latin-1 + caseless runes of any UTF-8 length), cursor (and mark for kill-region) anywhere; the kill command and then yank / vi-put-before are typed through their key bindings in a real Readline call",
 			"when a kill command removes nothing the statement says nothing and nothing is asserted",
@@ -720,6 +737,15 @@ func init() {
 							add(mode, n, class, "utf8")
 						}
 					}
+				}
+			}
+			// the same after an earlier Readline call on the same shell
+			for _, prev := range []string{"enter", "abort", "eof", "tab"} {
+				for _, mode := range []string{"emacs", "vi-insert"} {
+					j := mkJob(".ZZ_C02_Typed", shellSetup, "mode", mode, "n", "2", "class", "special", "meta", "default", "prev", prev)
+					j.Stubs = paintStubs
+					j.Reach = []string{"returned", "first-call-returned"}
+					jobs = append(jobs, j)
 				}
 			}
 			return jobs
